@@ -26,6 +26,11 @@ class ContinueSig(Exception):
     pass
 
 
+class PathEnd(Exception):
+    """The path ends here without reaching the function's exit: an arbitrary loop iteration has re-established
+    the loop invariant (the continuation is covered by the path that assumed the invariant)."""
+
+
 class Abort(Exception):
     """Path is infeasible (an assumption contradicted the path condition)."""
 
